@@ -32,7 +32,9 @@ NAMES = ['secret', 'secret_key', 'db_secret_url', 'my_secretX', 'token', 's', 'p
          'page_title',      # page_title: also the name of one of the meta application's own resources
          u'caf\udce9 file', u'secret caf\udce9', u'<b>&"name"']   # names that are not identifiers: surrogate-escaped, markup
 KINDS = ['str', 'bytes', 'int', 'nested', 'reprobj', 'longstr', 'surrstr']
-MOUNTS = ['/_meta/', '/m', '/', 'deep']
+MOUNTS = ['/_meta/', '/m', '/', 'deep', 'static-first']
+# static-first: a static application and the meta application share one prefix, the static one listed first
+# (its misses fall through to the meta pages)
 MWSETS = ['none', 'cookie', 'custom', 'subclass', 'provides-shapes', 'ctxproc-of-resources']
 VIEWS = ['html', 'json']
 COOKIE_KEY = b'ZQCOOKIEKEY77abc'
@@ -216,6 +218,9 @@ def build_host(resources, mwset, mount, meta=None):
         def __repr__(self):
             return '<Tmpl object>'
     meta = meta or MetaApplication()
+    if mount == 'static-first':
+        host = Application(routes + [('/ops', StaticApplication(here)), ('/ops', meta)], resources=dict(resources), middlewares=mws)
+        return host, '/ops'
     if mount == 'deep':
         host = Application(routes + [('/m', meta)], resources=dict(resources), middlewares=mws)
         mid = Application([('/h', host)], resources=dict(resources), middlewares=[])
@@ -229,8 +234,16 @@ def build_host(resources, mwset, mount, meta=None):
     return host, mount.rstrip('/')
 
 
-def fetch(app, base, view):
+SCRIPT_NAMES = ['', '/mnt', u'/caf\xe9'.encode('utf-8').decode('latin-1'), '/caf\xe9', '/\xff\xfe']
+
+
+def fetch(app, base, view, script_name=''):
     path = base + ('/' if view == 'html' else '/json/')
+    if script_name:
+        # the host is itself mounted by the WSGI server (SCRIPT_NAME as a server delivers it: bytes as latin-1)
+        env = wsgi.make_environ(path, 'GET')
+        env['SCRIPT_NAME'] = script_name
+        return wsgi.call(app, None, environ=env)
     return wsgi.call(app, path, 'GET')
 
 
@@ -312,13 +325,15 @@ def run_hosts(acc, tier, i, n):
                     acc.violation('C18:host-construct:%s' % type(e).__name__, 'host cannot be built: %r %r' % (e, case), case)
                     continue
                 for view in VIEWS:
-                    res = fetch(app, base, view)
+                    # the host under a mount point of the WSGI server, rotating through SCRIPT_NAMES
+                    sn = SCRIPT_NAMES[k % len(SCRIPT_NAMES)] if len(spec) <= 1 else ''
+                    res = fetch(app, base, view, sn)
                     acc.evaluated += 1
                     acc.transitions += 1
                     acc.validated += 1
                     if any('secret' in nm for nm, _ in spec):
                         acc.add('nontrivial')
-                    ok = check_page(acc, res, spec, view, dict(case, view=view), 'hosts')
+                    ok = check_page(acc, res, spec, view, dict(case, view=view, script_name=sn), 'hosts')
                     acc.outcome('hosts|%s|%s|%d-resources|%s' % (mount, view, len(spec), 'ok' if ok else 'bad'))
                 if k % 997 == i:
                     acc.sample(case)
@@ -441,7 +456,7 @@ def replay(case):
         spec = [tuple(x) for x in case['spec']]
         resources = dict((name, make_value(name, kind)) for name, kind in spec)
         app, base = build_host(resources, case['mwset'], case['mount'])
-        res = fetch(app, base, case['view'])
+        res = fetch(app, base, case['view'], case.get('script_name', ''))
         ok = check_page(acc, res, spec, case['view'], case, 'hosts')
         return ok, (acc.violations[0]['desc'][:1500] if acc.violations else 'ok')
     run_faults(acc, 'quick', 0, 1)
